@@ -70,6 +70,9 @@ struct Config {
   int trackers = 0;
   // probe outside the lattice: "PhotonSourceDistribution: type: None"
   int nosource = 0;
+  // restart modes: thread count of the restarted leg (0: the same as the first leg)
+  int rthreads = 0;
+  int restart_threads() const { return rthreads ? rthreads : threads; }
 
   std::string label() const {
     std::string s = fmt("%s/t%d/grid%d", MODE_NAME[mode], threads, layout);
@@ -81,18 +84,22 @@ struct Config {
     s += fmt("/diffuse=%d/cont=%d", diffuse, cont);
     if (nosource)
       s += "/no-discrete-source";
+    if (rthreads)
+      s += fmt("/restarted-with-t%d", rthreads);
     return s;
   }
   std::string json(const std::string &tool) const {
     return fmt("{\"mode\": %d, \"threads\": %d, \"live\": %d, \"mask\": %d, \"turb\": %d, \"diffuse\": %d, "
-               "\"cont\": %d, \"trackers\": %d, \"nosource\": %d, \"layout\": %d, \"tool\": \"%s\", "
+               "\"cont\": %d, \"trackers\": %d, \"nosource\": %d, \"layout\": %d, \"rthreads\": %d, \"tool\": \"%s\", "
                "\"label\": \"%s\"}",
-               mode, threads, live, mask, turb, diffuse, cont, trackers, nosource, layout, tool.c_str(),
+               mode, threads, live, mask, turb, diffuse, cont, trackers, nosource, layout, rthreads, tool.c_str(),
                label().c_str());
   }
   std::vector< int > factors() const {
     if (mode == ION)
       return {threads - 1, trackers, diffuse, cont, layout};
+    if (mode == 3 || mode == 4) // restart modes: the restarted leg may use another thread count
+      return {threads - 1, live, mask, turb, diffuse, cont, layout, rthreads};
     return {threads - 1, live, mask, turb, diffuse, cont, layout};
   }
 };
@@ -623,6 +630,13 @@ static void run_job(verif::Result &R, Counters &cn, const Config &c, const std::
       first.push_back("--number-of-steps");
       first.push_back("2");
       legs.push_back(first);
+      if (c.rthreads) {
+        // the restarted run is started with another number of threads
+        a[tool_prefix(tool).size()] = exe_for(tool, c.rthreads);
+        for (size_t k = 0; k + 1 < a.size(); ++k)
+          if (a[k] == "--threads")
+            a[k + 1] = fmt("%d", c.rthreads);
+      }
       a.push_back("--restart");
       a.push_back(".");
     }
@@ -759,6 +773,11 @@ static std::vector< Config > all_configs(int mode) {
                   c.diffuse = d;
                   c.cont = cs;
                   v.push_back(c);
+                  if (is_restart(mode)) {
+                    // restarted with the other thread count (1 <-> 2), and 4 -> 1 is added separately
+                    c.rthreads = th == 1 ? 2 : 1;
+                    v.push_back(c);
+                  }
                 }
       }
     }
@@ -832,6 +851,7 @@ int main(int argc, char **argv) {
     c.trackers = atoi(verif::replay_field(txt, "trackers").c_str());
     c.nosource = atoi(verif::replay_field(txt, "nosource").c_str());
     c.layout = atoi(verif::replay_field(txt, "layout").c_str()) ? 1 : 0;
+    c.rthreads = atoi(verif::replay_field(txt, "rthreads").c_str());
     std::string tool = verif::replay_field(txt, "tool");
     if (c.threads < 1)
       c.threads = 1;
@@ -864,6 +884,20 @@ int main(int argc, char **argv) {
       jobs.push_back({c, "asan"});
     }
   }
+  // a dump written by a run with four threads, restarted with one thread (subgrids
+  // owned by threads that do not exist in the restarted run)
+  for (int m : {(int)RHD_RESTART, (int)RHD_RAD_RESTART})
+    for (int lay = 0; lay < 2; ++lay) {
+      Config c;
+      c.mode = m;
+      c.threads = 4;
+      c.rthreads = 1;
+      c.layout = lay;
+      ++nconfig;
+      ++nall;
+      jobs.push_back({c, "valgrind"});
+      jobs.push_back({c, "asan"});
+    }
   // probes outside the property's precondition: no discrete source
   // (PhotonSourceDistribution type None). do_simulation dereferences the source
   // distribution unconditionally, so such a file is not a valid parameter file
